@@ -139,7 +139,7 @@ def activity(job, model, variant):
                     if st2 == "discharged":
                         job.mark_known("%s/%s" % (tag, name), entry["what"])
     if not got:
-        job.vacuity["failed"].append(tag)
+        job.unreached(tag)
 
 
 # ------------------------------------------------------------------------------------------------
@@ -256,7 +256,7 @@ def solver_and_curve(job, mode, model, basis, K):
             job.prove(tag + "/flux_solver", cs + lemmas, [lift(ja[0]) != lift(jb[1]), lift(ja[1]) != lift(jb[0])], R_, inputs, fallback=fb,
                       congruence=CG, timeout=40, near=1, rewrite=rw)
         if not got:
-            job.vacuity["failed"].append(tag + "/solver")
+            job.unreached(tag)
     # (B) helpers, one-point curve and metrics on top of the identity-keyed flux function
     with Patches() as pt:
         install_identity_stubs(pt, fs.mix, job)
@@ -300,7 +300,7 @@ def solver_and_curve(job, mode, model, basis, K):
             job.prove(tag + "/curve_separation_factor_inverts", cs + lem, lift(o["sfa"][0]) * lift(o["sfb"][0]) != 1, R_, inputs, fallback=fb, congruence=CG, timeout=30)
             job.prove(tag + "/curve_selectivity_inverts", cs + lem, lift(o["sela"][0]) * lift(o["selb"][0]) != 1, R_, inputs, fallback=fb, congruence=CG, timeout=30)
         if not got:
-            job.vacuity["failed"].append(tag + "/curve")
+            job.unreached(tag)
 
 
 def processes(job, kind, mode, tier):
@@ -360,7 +360,7 @@ def processes(job, kind, mode, tier):
                 job.prove(tag + "/separation_factor_inverts", cs + lemmas, [lift(sfa[k]) * lift(sfb[k]) != 1 for k in range(N)], R_, inputs, fallback=fb, timeout=40)
                 job.prove(tag + "/selectivity_inverts", cs + lemmas, [lift(sela[k]) * lift(selb[k]) != 1 for k in range(N)], R_, inputs, fallback=fb, timeout=40)
             if not got:
-                job.vacuity["failed"].append(tag)
+                job.unreached(tag)
 
 
 JOB_TIMEOUT = {"quick": 500, "thorough": 2400}
